@@ -13,6 +13,8 @@
 #include <kernel/space/lagrange1/element.hpp>
 #include <kernel/space/cro_rav_ran_tur/element.hpp>
 #include <control/stokes_blocked.hpp>
+#include <control/asm/slip_filter_asm.hpp>
+#include <kernel/lafem/slip_filter.hpp>
 
 #include <cmath>
 
@@ -28,9 +30,11 @@ namespace
     int rank = 0;
     std::vector<long long> vkeys, pkeys;
     std::vector<double> s0v, s0p, s1v, s1p, fv, fp, axv, axp;
+    std::vector<double> slipv;   // a consistent velocity vector after the synchronised slip filter (whole boundary)
+    std::vector<double> vcoord;  // velocity DOF coordinates (diagnostics)
     double dot = 0, norm2 = 0;
   };
-  struct Shared { wc::VertexDict dict; std::vector<RankOut> a, b; };
+  struct Shared { wc::VertexDict dict; std::vector<RankOut> a, b; bool slip_q2 = false; };
   Shared* SH = nullptr;
   struct Counters { uint64_t velo_dofs = 0, pres_dofs = 0, shared = 0, matvec = 0; } CNT;
 
@@ -115,6 +119,26 @@ namespace
     for(Index d = 0; d < nv; ++d) for(int c = 0; c < 2; ++c) { out.s0v.push_back(v0.template at<0>()(d)[c]); out.s1v.push_back(v1.template at<0>()(d)[c]); out.fv.push_back(gate.get_freqs().template at<0>()(d)[c]); }
     for(Index d = 0; d < np; ++d) { out.s0p.push_back(v0.template at<1>()(d)); out.s1p.push_back(v1.template at<1>()(d)); out.fp.push_back(gate.get_freqs().template at<1>()(d)); }
 
+    if(SH->slip_q2)
+    {
+      // slip filter for the Lagrange-2 velocity on the whole boundary, synchronised over the velocity gate. Only in the
+      // pinned reproduction of the known finding (KNOWN_FINDINGS.txt): the Lagrange-2 slip filter is partition dependent by
+      // construction - the vertex normals are not synchronised before they are interpolated to the edge DOFs
+      LAFEM::SlipFilter<double, Index, 2> slip;
+      Control::Asm::asm_slip_filter(slip, lvl, lvl.space_velo, String("*"));
+      Control::Asm::sync_slip_filter(sys.gate_velo, slip);
+      auto fv1 = sys.gate_velo.get_freqs().clone(LAFEM::CloneMode::Layout);
+      for(Index d = 0; d < nv; ++d) { Tiny::Vector<double, 2> a; a[0] = g_val(out.vkeys[d], 7, 0); a[1] = g_val(out.vkeys[d], 7, 1); fv1(d, a); }
+      slip.filter_def(fv1);
+      for(Index d = 0; d < nv; ++d) { out.slipv.push_back(fv1(d)[0]); out.slipv.push_back(fv1(d)[1]); }
+      {
+        auto fx = Analytic::create_lambda_function_scalar_2d([](double x, double) { return x; });
+        auto fy = Analytic::create_lambda_function_scalar_2d([](double, double y) { return y; });
+        LAFEM::DenseVector<double, Index> vx, vy;
+        Assembly::Interpolator::project(vx, fx, lvl.space_velo); Assembly::Interpolator::project(vy, fy, lvl.space_velo);
+        for(Index d = 0; d < nv; ++d) { out.vcoord.push_back(vx(d)); out.vcoord.push_back(vy(d)); }
+      }
+    }
     GlobalSystemVector gx = sys.matrix_sys.create_vector_r(), gy = sys.matrix_sys.create_vector_r(), gr = sys.matrix_sys.create_vector_l();
     for(Index d = 0; d < nv; ++d)
     {
@@ -163,6 +187,7 @@ namespace
           if(!close(r.s1v[2 * d + c], e1, 4e-16 * double(S.size() + 1), std::abs(e1) + 1)) sim::fail("SYNC1", "tuple sync_1 changed a consistent velocity value");
           if(!close(r.fv[2 * d + c], 1.0 / double(S.size()), 1e-15, 1.0)) sim::fail("GATE_FREQS", "wrong velocity frequency in the system gate");
           ++CNT.matvec;
+          if(SH->slip_q2 && std::abs(r.slipv[2 * d + c] - B.slipv[2 * it->second + c]) > 1e-10) sim::fail("SLIP_FILTER_Q2", "slip-filtered Lagrange-2 velocity vector differs from the one-process result at the DOF (" + std::to_string(r.vcoord[2 * d]) + ", " + std::to_string(r.vcoord[2 * d + 1]) + ") shared by " + std::to_string(S.size()) + " rank(s): " + std::to_string(r.slipv[2 * d]) + "," + std::to_string(r.slipv[2 * d + 1]) + " vs " + std::to_string(B.slipv[2 * it->second]) + "," + std::to_string(B.slipv[2 * it->second + 1]) + " input " + std::to_string(g_val(r.vkeys[d], 7, 0)) + "," + std::to_string(g_val(r.vkeys[d], 7, 1)));
           if(!close(r.axv[2 * d + c], B.axv[2 * it->second + c], 1e-12, sav)) sim::fail("MATVEC", "saddle-point product, velocity part, differs from the one-process product: " + std::to_string(r.axv[2 * d + c]) + " vs " + std::to_string(B.axv[2 * it->second + c]));
         }
       }
@@ -200,6 +225,8 @@ std::string harness_run()
   if(w.parti == 2) w.parti = 1;
   CNT = Counters();
   Shared sh; SH = &sh;
+  // never drawn in exploration (weight 0); the pinned trace of the known finding sets it
+  sh.slip_q2 = sim::cfg_fixed("slip_q2_known_finding", 0) == 1;
   sh.a.resize(size_t(w.n)); sh.b.resize(1);
   simmpi::world_begin(w.n, [w](int r) { rank_body(r, w, false, 0, SH->a); });
   sim::run_go();
